@@ -21,7 +21,7 @@ async def drain(n=DRAIN_TURNS):
 class ServerSide(object):
     """ASGI server end of one WebSocket connection."""
 
-    def __init__(self, client_events, fail_send_at=None, fail_exc=None):
+    def __init__(self, client_events, fail_send_at=None, fail_exc=None, raise_after_disconnect=True):
         self.client_events = list(client_events)  # after websocket.connect
         self.next_client = 0
         self.inbox = [{'type': 'websocket.connect'}]
@@ -34,6 +34,7 @@ class ServerSide(object):
         self.fail_send_at = fail_send_at
         self.fail_exc = fail_exc
         self.client_gone = False  # a disconnect event has been delivered ('D')
+        self.raise_after_disconnect = raise_after_disconnect  # servers differ: some raise from send(), some drop silently
         self.receive_after_disconnect = 0
         self.max_outstanding_violation = None
 
@@ -73,7 +74,7 @@ class ServerSide(object):
         self.attempts.append(rec)
         if self.fail_send_at is not None and n >= self.fail_send_at:
             raise self.fail_exc
-        if self.client_gone and event.get('type') == 'websocket.send':
+        if self.client_gone and self.raise_after_disconnect and event.get('type') == 'websocket.send':
             # what servers do once the peer is gone (a late close is ignored)
             raise OSError('client disconnected')
         self.sent.append(event)
